@@ -645,7 +645,75 @@ def h6_long(timeout=300, part=None, **kw):
     return core.run_symx("H6_long", fn, [pp.PDFStreamParser.nextobject], {"objects": LONG_OBJECTS, "sizes": LONG_N, "BUFSIZ": [4096, 509, 4097]}, timeout, concretize=conc, part=part)
 
 
+# ------------------------------------------------------------------------------------------ H7 several names read in one process (the interning table is process-wide)
+NAME_POOL = [b"e", b"\xe9", b"\xc3\xa9", b"\xc3", b"\xa9", b"\xf8", b"\xc3\xb8", b"A\xe9", b"A\xc3\xa9", b"\xff", b"\xc3\xbf", b"#", b" ", b"\xe9 "]
+
+
+def _name_bytes(x):
+    n = x.name
+    return n if isinstance(n, bytes) else n.encode("utf-8")
+
+
+def _names_check(sel):
+    """sel: three indices into NAME_POOL.  The names are written with #xx escapes for every byte outside the regular printable range, once as an array and once as dictionary keys, and read
+    by the real parser in this order: every element is the name that was written, equal names are one object and different names different objects, the dictionary keeps every distinct key"""
+    from pdfminer.pdfparser import PDFStreamParser
+    from pdfminer.psparser import PSLiteral
+    names = [NAME_POOL[i] for i in sel]
+    spell = lambda b: b"/" + b"".join(bytes([c]) if 33 <= c <= 126 and c not in b"#/()<>[]{}%" else b"#%02X" % c for c in b)
+    data = b"[" + b" ".join(spell(n) for n in names) + b"] << " + b" ".join(spell(n) + b" %d" % i for i, n in enumerate(names)) + b" >> "
+    p = PDFStreamParser(data)
+    try:
+        arr = p.nextobject()[1]
+        dic = p.nextobject()[1]
+    except Exception as e:
+        return "reading %r raised %s: %s" % (data, type(e).__name__, e)
+    if len(arr) != len(names) or not all(isinstance(x, PSLiteral) for x in arr):
+        return "%r reads back as %r" % (data, arr)
+    for i, (x, n) in enumerate(zip(arr, names)):
+        if _name_bytes(x) != n:
+            return "%r: element %d was written as the name with the bytes %r and reads back as %r" % (data, i, n, x.name)
+    for i in range(len(names)):
+        for j in range(i):
+            if (arr[i] is arr[j]) != (names[i] == names[j]):
+                return "%r: names %r and %r are %s object" % (data, names[j], names[i], "the same" if arr[i] is arr[j] else "not the same")
+    last = {}
+    for i, n in enumerate(names):
+        last[n] = i
+    # dictionary keys are text in this library (literal_name: the UTF-8 reading of the name, or the repr of its bytes): the convention is taken as given, the mapping is checked
+    from pdfminer.psparser import literal_name
+    if len(dic) != len(last):
+        return "%r: the dictionary reads back with %d keys %r, %d different names were written" % (data, len(dic), sorted(dic), len(last))
+    for x, n in zip(arr, names):
+        if dic.get(literal_name(x)) != last[n]:
+            return "%r: the entry of the name %r reads back as %r, written was %r" % (data, n, dic.get(literal_name(x)), last[n])
+    return None
+
+
+def h7_names(timeout=200, part=None, **kw):
+    import pdfminer.psparser as ps
+
+    def fn(ex):
+        sel = [ex.choice(len(NAME_POOL), "n%d" % i) for i in range(3)]
+        r = _names_check(sel)
+        if r is not None:                   # the table outlives a path: report a selection that fails from a cold start
+            sc = core.self_contained("C01", "_names_check", sel, [[q, a, b] for q in range(len(NAME_POOL)) for (a, b) in ((sel[0], sel[2]), (sel[1], sel[2]), (sel[0], sel[1]))])
+            if sc is None:
+                r += "  [only after the names read by earlier paths of this run]"
+            else:
+                sel, r = sc
+        ex.require(r is None, r or "", kind="names", sel=sel)
+
+    def conc(m, info):
+        return {"kind": "names", "sel": info["sel"]}
+    return core.run_symx("H7_names", fn, [ps.PSSymbolTable.intern, ps.PSBaseParser._parse_literal, ps.PSBaseParser._parse_literal_hex],
+                         {"names": "every sequence of three names from a pool of %d byte strings (ASCII, single high bytes and the UTF-8 sequences that render like them), in an array and as dictionary keys" % len(NAME_POOL),
+                          "parser": "the real PDFStreamParser, no shims"}, timeout, concretize=conc, part=part)
+
+
 def replay(harness, inp):
+    if inp.get("kind") == "names" and "sel" in inp:
+        return _names_check(inp["sel"])
     import pdfminer.psparser as ps
     import pdfminer.pdftypes as pt
     if inp.get("long"):
@@ -696,7 +764,7 @@ def replay(harness, inp):
 
 
 def jobs(tier):
-    J = [Job("H6_long:%d" % k, "h6_long", {"part": [k, 4, 5]}, 300, "H6_long") for k in range(4)]
+    J = [Job("H6_long:%d" % k, "h6_long", {"part": [k, 4, 5]}, 300, "H6_long") for k in range(4)] + [Job("H7_names", "h7_names", {}, 200)]
     if tier == "quick":
         for k in range(8):
             J.append(Job("H1_strings:n2:%d" % k, "h1_strings", {"n": 2, "part": [k, 8, 10]}, 200, "H1_strings"))
